@@ -174,6 +174,7 @@ pub fn checks() -> Vec<Check> {
             st("c07.f2", c07::f2, (0, 0), 3, "4 files x every page x {payload byte, checksum byte, last payload byte} damaged x all read-op histories of depth 3 (thorough 4) on one reader"),
             st("c07.poll", c07::poll, (0, 0), 3, "2 packet geometries (17 / 300 points per packet) x cloud shifted through all 255 aligned page residues x every page of the cloud damaged (payload bit, checksum bit) x {raw, simple} iterator polled 3n+8 times past its errors: every delivered item equals the same-index item of the unaltered file"),
             st("c07.big", c07::big, (0, 0), 3, "files of 255, 256, 257, 300, 513, 770 pages x every page damaged in turn (one payload bit, one checksum bit): validate_crc must fail, and must pass on the unaltered file"),
+            Stage { hw_compare: true, ..st("c07.pagesize", c07::pagesize, (0, 0), 3, "every page size 64..=4200 and 8191, 8192, 8193, 65535, 65536, 65537, 2^20 (validate_crc / raw_xml take it from the header): 3-page images sealed with the independent CRC; unaltered image validates and yields its XML, 21 single-byte damages per image are all rejected; both CRC backends") },
             Stage { hw_compare: true, ..st("c07.f6", c07::f6, (0, 0), 3, "backend comparison: all writer programs of depth <=2 (file bytes) and damaged-file verdict vectors, executed with the built-in CRC and with the crc32c feature; per-case observations must be identical") },
         ],
         extra: Some(c07::extra),
@@ -198,7 +199,7 @@ pub fn checks() -> Vec<Check> {
     Check {
         id: "C09",
         level: "model_checking",
-        stages: vec![Stage { timeout_s: 30, ..st("c09.sweep", c08::sweep_budget, (0, 0), 3, "the C08 sweep with per-call budgets: bytes allocated and peak live bytes <= 64*L + 8 MiB (open/XML), 64*L + 192 MiB (iterator steps), L + 1 MiB (blob), device bytes requested <= 4*L + 64 KiB (validate_crc 2*L), every single call < 10 s wall, 30 s (thorough 240 s) watchdog per mutant, iterators yield <= recordCount items; live-byte cap 2 GiB per worker") }],
+        stages: vec![Stage { timeout_s: 30, ..st("c09.sweep", c08::sweep_budget, (0, 0), 3, "the C08 sweep with per-call budgets: bytes allocated and peak live bytes <= 128*L + 8 MiB (open/XML), 64*L + 192 MiB (iterator steps), L + 1 MiB (blob), device bytes requested <= 4*L + 64 KiB (validate_crc 2*L), every single call < 10 s wall, 30 s (thorough 240 s) watchdog per mutant, iterators yield <= recordCount items; live-byte cap 2 GiB per worker") }],
         extra: None,
         rule: "same enumeration as C08; a counting global allocator and a counting device measure every single call (open, each next(), each blob); a worker that exceeds the live-byte cap exits with a distinguished status and the case is reported; distinct = distinct mutant bytes; non-trivial = all calls within budget",
         assumptions: &["budgets are per kind of call; the iterator constant covers the legitimate worst case of one 64 KiB packet of 1-bit values (2^19 values held twice)", "watchdog is a timeout, not a termination proof"],
@@ -213,6 +214,7 @@ pub fn checks() -> Vec<Check> {
             st("c10.protos_base", c10::protos_base, (0, 0), 3, "valid base (XYZ f32 | spherical f64) + <=2 extra records over 25 names x 14 types"),
             st("c10.protos_mutated", c10::protos_mutated, (0, 0), 3, "catalogue prototypes with one record deleted / duplicated / retyped"),
             st("c10.protos_groups", c10::protos_groups, (0, 0), 3, "all name sequences of length 1..4 over the 9 coordinate/colour component names (every combination of missing and repeated group members)"),
+            Stage { timeout_s: 30, ..st("c10.protos_wide", c10::protos_wide, (0, 0), 3, "XYZ + k extension records (64-bit / 1-bit / zero-width) for every k in 5880..5930, 20790..20830, 21650..21700, 60..64 x {1,3} points: every call returns, success implies read-back") },
             st("c10.values", c10::values, (0, 0), 3, "unstorable value (9 kinds) at every position 0..8 of a 9-point cloud x 8 integer types x 2 record slots"),
             st("c10.orders", c10::orders, (0, 0), 3, "all sequences of depth <=3 (quick) / <=4 (thorough) over 15 API sessions incl. misuse x 3 finalize modes"),
         ],
